@@ -28,8 +28,10 @@ var (
 	manager message.Manager
 
 	// Router is shared between httpd, webui and rest packages. It sends
-	// incoming requests to the correct handler function
-	Router = mux.NewRouter()
+	// incoming requests to the correct handler function.  It matches the
+	// encoded path, so an escaped slash in a mailbox name stays inside its
+	// route variable; NewContext unescapes the variables.
+	Router = mux.NewRouter().UseEncodedPath()
 
 	rootConfig *config.Root
 	server     *http.Server
@@ -50,6 +52,12 @@ type Server struct {
 	notify chan error // Notify on fatal error.
 }
 
+// RoutePrefixer returns a function that adds the base path to route templates and redirect
+// targets.  Router matches the encoded request path, so the base path is escaped the way it is sent.
+func RoutePrefixer(basePath string) func(string) string {
+	return stringutil.MakePathPrefixer((&url.URL{Path: basePath}).EscapedPath())
+}
+
 // NewServer sets up things for unit tests or the Start() method.
 func NewServer(conf *config.Root, mm message.Manager, mh *msghub.Hub) *Server {
 	rootConfig = conf
@@ -59,7 +67,8 @@ func NewServer(conf *config.Root, mm message.Manager, mh *msghub.Hub) *Server {
 	manager = mm
 
 	// Redirect requests to / if there is a base path configured.
-	prefix := stringutil.MakePathPrefixer(conf.Web.BasePath)
+	prefix := RoutePrefixer(conf.Web.BasePath)
+	unescaped := stringutil.MakePathPrefixer(conf.Web.BasePath)
 	redirectBase := prefix("/")
 	if redirectBase != "/" {
 		log.Info().Str("module", "web").Str("phase", "startup").Str("path", redirectBase).
@@ -86,7 +95,7 @@ func NewServer(conf *config.Root, mm message.Manager, mh *msghub.Hub) *Server {
 
 	// Static paths.
 	Router.PathPrefix(prefix("/static")).Handler(
-		http.StripPrefix(prefix("/"), http.FileServer(http.Dir(conf.Web.UIDir))))
+		http.StripPrefix(unescaped("/"), http.FileServer(http.Dir(conf.Web.UIDir))))
 	Router.Path(prefix("/favicon.png")).Handler(
 		fileHandler(filepath.Join(conf.Web.UIDir, "favicon.png")))
 
@@ -109,7 +118,7 @@ func NewServer(conf *config.Root, mm message.Manager, mh *msghub.Hub) *Server {
 
 	// SPA managed paths.
 	spaHandler := cookieHandler(appConfigCookie(conf.Web),
-		spaTemplateHandler(indexTmpl, prefix("/")))
+		spaTemplateHandler(indexTmpl, unescaped("/")))
 	Router.Path(prefix("/")).Handler(spaHandler)
 	Router.Path(prefix("/monitor")).Handler(spaHandler)
 	Router.Path(prefix("/status")).Handler(spaHandler)
